@@ -1,12 +1,16 @@
 (* C09: statements.  Each theorem is only an [exact] of a lemma proved in the other files.
-   The assumptions of C09_body_<Planet> (= those of C09_planets.planet_full_<Planet>, of which it is an
-   [exact]) are printed by C09_pa_<Planet>.v in parallel (9 s each). *)
+   The seven theorems C09_body_<Planet> (whole generated geocentric_position bodies) are stated, proved
+   by [exact] and their assumptions printed in C09_b_<Planet>.v (one file per planet, compiled in
+   parallel; imported below); their statement is explained here before C09_body_direction.
+   Labels: [ideal, generated code] theorem about the regenerated model in the real-number instance;
+   [generated closed forms -> spec] property of the closed forms those theorems show the code to compute;
+   [spec] hand-written formula only.  PARTIAL CORRECTNESS is marked where a callee is assumed to return. *)
 From Coq Require Import Reals ZArith List Lra.
 From PyLib Require Import PyVal PyBuiltins Ideal Sphere.
 From Spec Require Import AngleSpec.
 From Gen Require Import M_base M_Angle M_Epoch M_Coordinates M_Earth M_Sun M_Minor M_Pluto.
-From Gen Require Import M_Mercury M_Venus M_Mars M_Jupiter M_Saturn M_Uranus M_Neptune.
-From Proofs.C09 Require Import C09_spec C09_minor C09_A_defs C09_geo C09_body C09_planets C09_mbody C09_mgeo C09_pluto.
+From Proofs.C09 Require Import C09_spec C09_minor C09_A_defs C09_geo C09_body C09_planets C09_mbody C09_mgeo C09_mnp C09_pluto.
+From Proofs.C09 Require Import C09_b_Mercury C09_b_Venus C09_b_Mars C09_b_Jupiter C09_b_Saturn C09_b_Uranus C09_b_Neptune.
 Import ListNotations.
 Open Scope R_scope.
 
@@ -58,138 +62,21 @@ Theorem C09_minor_gauss om inc u :
   x = xe /\ y = ye * ce - ze * se /\ z = ye * se + ze * ce.
 Proof. exact (gauss_xyz om inc u). Qed.
 
-(* [ideal, generated code, callees abstracted] the WHOLE body of <Planet>.geocentric_position.
-   Whatever the callees return -- planet and Earth geometric_heliocentric_position(., tofk5=False)
-   = (pl,pb,pr), (el,eb,er); Epoch.__isub__(epoch j, tau) = epoch j1 for exactly
-   tau = 0.0057755183*|planet(j) - Earth(j)| (C09_geo.tau_of); nutation_longitude, true_obliquity,
-   Sun.apparent_geocentric_position, ecliptical2equatorial -- the body
-   * takes the planet a second time at j1 and the Earth at the caller's epoch j,
-   * forms lambda = atan2(y,x), beta = atan2(z, sqrt(x^2+y^2)) of the difference (C09_body.lamG, betG),
-   * adds the aberration terms abl/abb with k = 20.49552 and the e, pi polynomials at T(j1), the FK5
-     terms and the nutation of j1 (C09_body.LAMG, BETG; each sum reduced by Angle's red360),
-   * returns ecliptical2equatorial(LAMG, BETG, true_obliquity(j1)) and the elongation
-     ELONG = acos(cos BETG cos(LAMG - Lsun(j1))) with the SUN TAKEN AT THE SHIFTED EPOCH j1
-     (this is the known finding elongation-sun-at-light-time-epoch, here as a theorem).
-   Side conditions: |T(j1)| <= 40 centuries, |beta| <= 25 deg, |B(j1)| <= 25 deg.
-   JDE2000 = 2451545 is proved (C09_J_jde), not assumed. *)
-Theorem C09_body_Mercury (pl pb pr el eb er nut obl sl sb sr : R -> R) (era edec : R -> R -> R -> R) (j j1 : R) :
-  (forall j, Mercury_geometric_heliocentric_position Rops (ep j) (VBool false) = VTuple [ang (pl j); ang (pb j); VFloat (pr j)]) ->
-  (forall j, Earth_geometric_heliocentric_position Rops (ep j) (VBool false) = VTuple [ang (el j); ang (eb j); VFloat (er j)]) ->
-  Epoch___isub__ Rops (ep j) (VFloat (tau_of (pl j) (pb j) (pr j) (el j) (eb j) (er j))) = ep j1 ->
-  (forall j, f_nutation_longitude Rops (VTuple [ep j]) (VDict []) = ang (nut j)) ->
-  (forall j, f_true_obliquity Rops (VTuple [ep j]) (VDict []) = ang (obl j)) ->
-  (forall j, Sun_apparent_geocentric_position Rops (ep j) (VBool true) = VTuple [ang (sl j); ang (sb j); VFloat (sr j)]) ->
-  (forall a b e, f_ecliptical2equatorial Rops (ang a) (ang b) (ang e) = VTuple [ang (era a b e); ang (edec a b e)]) ->
-  -40 <= tcen j1 <= 40 ->
-  Rabs (betG (pl j1) (pb j1) (pr j1) (el j) (eb j) (er j)) <= 25 * (PI / 180) ->
-  Rabs (pb j1 * (PI / 180)) <= 25 * (PI / 180) ->
-  Mercury_geocentric_position Rops (ep j) =
-  VTuple [ang (era (LAMG (pl j1) (pb j1) (pr j1) (el j) (eb j) (er j) j1 (nut j1)) (BETG (pl j1) (pb j1) (pr j1) (el j) (eb j) (er j) j1) (obl j1));
-          ang (edec (LAMG (pl j1) (pb j1) (pr j1) (el j) (eb j) (er j) j1 (nut j1)) (BETG (pl j1) (pb j1) (pr j1) (el j) (eb j) (er j) j1) (obl j1));
-          ang (ELONG (pl j1) (pb j1) (pr j1) (el j) (eb j) (er j) j1 (nut j1) (sl j1))].
-Proof. exact (planet_full_Mercury pl pb pr el eb er nut obl sl sb sr era edec j j1). Qed.
-
-Theorem C09_body_Venus (pl pb pr el eb er nut obl sl sb sr : R -> R) (era edec : R -> R -> R -> R) (j j1 : R) :
-  (forall j, Venus_geometric_heliocentric_position Rops (ep j) (VBool false) = VTuple [ang (pl j); ang (pb j); VFloat (pr j)]) ->
-  (forall j, Earth_geometric_heliocentric_position Rops (ep j) (VBool false) = VTuple [ang (el j); ang (eb j); VFloat (er j)]) ->
-  Epoch___isub__ Rops (ep j) (VFloat (tau_of (pl j) (pb j) (pr j) (el j) (eb j) (er j))) = ep j1 ->
-  (forall j, f_nutation_longitude Rops (VTuple [ep j]) (VDict []) = ang (nut j)) ->
-  (forall j, f_true_obliquity Rops (VTuple [ep j]) (VDict []) = ang (obl j)) ->
-  (forall j, Sun_apparent_geocentric_position Rops (ep j) (VBool true) = VTuple [ang (sl j); ang (sb j); VFloat (sr j)]) ->
-  (forall a b e, f_ecliptical2equatorial Rops (ang a) (ang b) (ang e) = VTuple [ang (era a b e); ang (edec a b e)]) ->
-  -40 <= tcen j1 <= 40 ->
-  Rabs (betG (pl j1) (pb j1) (pr j1) (el j) (eb j) (er j)) <= 25 * (PI / 180) ->
-  Rabs (pb j1 * (PI / 180)) <= 25 * (PI / 180) ->
-  Venus_geocentric_position Rops (ep j) =
-  VTuple [ang (era (LAMG (pl j1) (pb j1) (pr j1) (el j) (eb j) (er j) j1 (nut j1)) (BETG (pl j1) (pb j1) (pr j1) (el j) (eb j) (er j) j1) (obl j1));
-          ang (edec (LAMG (pl j1) (pb j1) (pr j1) (el j) (eb j) (er j) j1 (nut j1)) (BETG (pl j1) (pb j1) (pr j1) (el j) (eb j) (er j) j1) (obl j1));
-          ang (ELONG (pl j1) (pb j1) (pr j1) (el j) (eb j) (er j) j1 (nut j1) (sl j1))].
-Proof. exact (planet_full_Venus pl pb pr el eb er nut obl sl sb sr era edec j j1). Qed.
-
-Theorem C09_body_Mars (pl pb pr el eb er nut obl sl sb sr : R -> R) (era edec : R -> R -> R -> R) (j j1 : R) :
-  (forall j, Mars_geometric_heliocentric_position Rops (ep j) (VBool false) = VTuple [ang (pl j); ang (pb j); VFloat (pr j)]) ->
-  (forall j, Earth_geometric_heliocentric_position Rops (ep j) (VBool false) = VTuple [ang (el j); ang (eb j); VFloat (er j)]) ->
-  Epoch___isub__ Rops (ep j) (VFloat (tau_of (pl j) (pb j) (pr j) (el j) (eb j) (er j))) = ep j1 ->
-  (forall j, f_nutation_longitude Rops (VTuple [ep j]) (VDict []) = ang (nut j)) ->
-  (forall j, f_true_obliquity Rops (VTuple [ep j]) (VDict []) = ang (obl j)) ->
-  (forall j, Sun_apparent_geocentric_position Rops (ep j) (VBool true) = VTuple [ang (sl j); ang (sb j); VFloat (sr j)]) ->
-  (forall a b e, f_ecliptical2equatorial Rops (ang a) (ang b) (ang e) = VTuple [ang (era a b e); ang (edec a b e)]) ->
-  -40 <= tcen j1 <= 40 ->
-  Rabs (betG (pl j1) (pb j1) (pr j1) (el j) (eb j) (er j)) <= 25 * (PI / 180) ->
-  Rabs (pb j1 * (PI / 180)) <= 25 * (PI / 180) ->
-  Mars_geocentric_position Rops (ep j) =
-  VTuple [ang (era (LAMG (pl j1) (pb j1) (pr j1) (el j) (eb j) (er j) j1 (nut j1)) (BETG (pl j1) (pb j1) (pr j1) (el j) (eb j) (er j) j1) (obl j1));
-          ang (edec (LAMG (pl j1) (pb j1) (pr j1) (el j) (eb j) (er j) j1 (nut j1)) (BETG (pl j1) (pb j1) (pr j1) (el j) (eb j) (er j) j1) (obl j1));
-          ang (ELONG (pl j1) (pb j1) (pr j1) (el j) (eb j) (er j) j1 (nut j1) (sl j1))].
-Proof. exact (planet_full_Mars pl pb pr el eb er nut obl sl sb sr era edec j j1). Qed.
-
-Theorem C09_body_Jupiter (pl pb pr el eb er nut obl sl sb sr : R -> R) (era edec : R -> R -> R -> R) (j j1 : R) :
-  (forall j, Jupiter_geometric_heliocentric_position Rops (ep j) (VBool false) = VTuple [ang (pl j); ang (pb j); VFloat (pr j)]) ->
-  (forall j, Earth_geometric_heliocentric_position Rops (ep j) (VBool false) = VTuple [ang (el j); ang (eb j); VFloat (er j)]) ->
-  Epoch___isub__ Rops (ep j) (VFloat (tau_of (pl j) (pb j) (pr j) (el j) (eb j) (er j))) = ep j1 ->
-  (forall j, f_nutation_longitude Rops (VTuple [ep j]) (VDict []) = ang (nut j)) ->
-  (forall j, f_true_obliquity Rops (VTuple [ep j]) (VDict []) = ang (obl j)) ->
-  (forall j, Sun_apparent_geocentric_position Rops (ep j) (VBool true) = VTuple [ang (sl j); ang (sb j); VFloat (sr j)]) ->
-  (forall a b e, f_ecliptical2equatorial Rops (ang a) (ang b) (ang e) = VTuple [ang (era a b e); ang (edec a b e)]) ->
-  -40 <= tcen j1 <= 40 ->
-  Rabs (betG (pl j1) (pb j1) (pr j1) (el j) (eb j) (er j)) <= 25 * (PI / 180) ->
-  Rabs (pb j1 * (PI / 180)) <= 25 * (PI / 180) ->
-  Jupiter_geocentric_position Rops (ep j) =
-  VTuple [ang (era (LAMG (pl j1) (pb j1) (pr j1) (el j) (eb j) (er j) j1 (nut j1)) (BETG (pl j1) (pb j1) (pr j1) (el j) (eb j) (er j) j1) (obl j1));
-          ang (edec (LAMG (pl j1) (pb j1) (pr j1) (el j) (eb j) (er j) j1 (nut j1)) (BETG (pl j1) (pb j1) (pr j1) (el j) (eb j) (er j) j1) (obl j1));
-          ang (ELONG (pl j1) (pb j1) (pr j1) (el j) (eb j) (er j) j1 (nut j1) (sl j1))].
-Proof. exact (planet_full_Jupiter pl pb pr el eb er nut obl sl sb sr era edec j j1). Qed.
-
-Theorem C09_body_Saturn (pl pb pr el eb er nut obl sl sb sr : R -> R) (era edec : R -> R -> R -> R) (j j1 : R) :
-  (forall j, Saturn_geometric_heliocentric_position Rops (ep j) (VBool false) = VTuple [ang (pl j); ang (pb j); VFloat (pr j)]) ->
-  (forall j, Earth_geometric_heliocentric_position Rops (ep j) (VBool false) = VTuple [ang (el j); ang (eb j); VFloat (er j)]) ->
-  Epoch___isub__ Rops (ep j) (VFloat (tau_of (pl j) (pb j) (pr j) (el j) (eb j) (er j))) = ep j1 ->
-  (forall j, f_nutation_longitude Rops (VTuple [ep j]) (VDict []) = ang (nut j)) ->
-  (forall j, f_true_obliquity Rops (VTuple [ep j]) (VDict []) = ang (obl j)) ->
-  (forall j, Sun_apparent_geocentric_position Rops (ep j) (VBool true) = VTuple [ang (sl j); ang (sb j); VFloat (sr j)]) ->
-  (forall a b e, f_ecliptical2equatorial Rops (ang a) (ang b) (ang e) = VTuple [ang (era a b e); ang (edec a b e)]) ->
-  -40 <= tcen j1 <= 40 ->
-  Rabs (betG (pl j1) (pb j1) (pr j1) (el j) (eb j) (er j)) <= 25 * (PI / 180) ->
-  Rabs (pb j1 * (PI / 180)) <= 25 * (PI / 180) ->
-  Saturn_geocentric_position Rops (ep j) =
-  VTuple [ang (era (LAMG (pl j1) (pb j1) (pr j1) (el j) (eb j) (er j) j1 (nut j1)) (BETG (pl j1) (pb j1) (pr j1) (el j) (eb j) (er j) j1) (obl j1));
-          ang (edec (LAMG (pl j1) (pb j1) (pr j1) (el j) (eb j) (er j) j1 (nut j1)) (BETG (pl j1) (pb j1) (pr j1) (el j) (eb j) (er j) j1) (obl j1));
-          ang (ELONG (pl j1) (pb j1) (pr j1) (el j) (eb j) (er j) j1 (nut j1) (sl j1))].
-Proof. exact (planet_full_Saturn pl pb pr el eb er nut obl sl sb sr era edec j j1). Qed.
-
-Theorem C09_body_Uranus (pl pb pr el eb er nut obl sl sb sr : R -> R) (era edec : R -> R -> R -> R) (j j1 : R) :
-  (forall j, Uranus_geometric_heliocentric_position Rops (ep j) (VBool false) = VTuple [ang (pl j); ang (pb j); VFloat (pr j)]) ->
-  (forall j, Earth_geometric_heliocentric_position Rops (ep j) (VBool false) = VTuple [ang (el j); ang (eb j); VFloat (er j)]) ->
-  Epoch___isub__ Rops (ep j) (VFloat (tau_of (pl j) (pb j) (pr j) (el j) (eb j) (er j))) = ep j1 ->
-  (forall j, f_nutation_longitude Rops (VTuple [ep j]) (VDict []) = ang (nut j)) ->
-  (forall j, f_true_obliquity Rops (VTuple [ep j]) (VDict []) = ang (obl j)) ->
-  (forall j, Sun_apparent_geocentric_position Rops (ep j) (VBool true) = VTuple [ang (sl j); ang (sb j); VFloat (sr j)]) ->
-  (forall a b e, f_ecliptical2equatorial Rops (ang a) (ang b) (ang e) = VTuple [ang (era a b e); ang (edec a b e)]) ->
-  -40 <= tcen j1 <= 40 ->
-  Rabs (betG (pl j1) (pb j1) (pr j1) (el j) (eb j) (er j)) <= 25 * (PI / 180) ->
-  Rabs (pb j1 * (PI / 180)) <= 25 * (PI / 180) ->
-  Uranus_geocentric_position Rops (ep j) =
-  VTuple [ang (era (LAMG (pl j1) (pb j1) (pr j1) (el j) (eb j) (er j) j1 (nut j1)) (BETG (pl j1) (pb j1) (pr j1) (el j) (eb j) (er j) j1) (obl j1));
-          ang (edec (LAMG (pl j1) (pb j1) (pr j1) (el j) (eb j) (er j) j1 (nut j1)) (BETG (pl j1) (pb j1) (pr j1) (el j) (eb j) (er j) j1) (obl j1));
-          ang (ELONG (pl j1) (pb j1) (pr j1) (el j) (eb j) (er j) j1 (nut j1) (sl j1))].
-Proof. exact (planet_full_Uranus pl pb pr el eb er nut obl sl sb sr era edec j j1). Qed.
-
-Theorem C09_body_Neptune (pl pb pr el eb er nut obl sl sb sr : R -> R) (era edec : R -> R -> R -> R) (j j1 : R) :
-  (forall j, Neptune_geometric_heliocentric_position Rops (ep j) (VBool false) = VTuple [ang (pl j); ang (pb j); VFloat (pr j)]) ->
-  (forall j, Earth_geometric_heliocentric_position Rops (ep j) (VBool false) = VTuple [ang (el j); ang (eb j); VFloat (er j)]) ->
-  Epoch___isub__ Rops (ep j) (VFloat (tau_of (pl j) (pb j) (pr j) (el j) (eb j) (er j))) = ep j1 ->
-  (forall j, f_nutation_longitude Rops (VTuple [ep j]) (VDict []) = ang (nut j)) ->
-  (forall j, f_true_obliquity Rops (VTuple [ep j]) (VDict []) = ang (obl j)) ->
-  (forall j, Sun_apparent_geocentric_position Rops (ep j) (VBool true) = VTuple [ang (sl j); ang (sb j); VFloat (sr j)]) ->
-  (forall a b e, f_ecliptical2equatorial Rops (ang a) (ang b) (ang e) = VTuple [ang (era a b e); ang (edec a b e)]) ->
-  -40 <= tcen j1 <= 40 ->
-  Rabs (betG (pl j1) (pb j1) (pr j1) (el j) (eb j) (er j)) <= 25 * (PI / 180) ->
-  Rabs (pb j1 * (PI / 180)) <= 25 * (PI / 180) ->
-  Neptune_geocentric_position Rops (ep j) =
-  VTuple [ang (era (LAMG (pl j1) (pb j1) (pr j1) (el j) (eb j) (er j) j1 (nut j1)) (BETG (pl j1) (pb j1) (pr j1) (el j) (eb j) (er j) j1) (obl j1));
-          ang (edec (LAMG (pl j1) (pb j1) (pr j1) (el j) (eb j) (er j) j1 (nut j1)) (BETG (pl j1) (pb j1) (pr j1) (el j) (eb j) (er j) j1) (obl j1));
-          ang (ELONG (pl j1) (pb j1) (pr j1) (el j) (eb j) (er j) j1 (nut j1) (sl j1))].
-Proof. exact (planet_full_Neptune pl pb pr el eb er nut obl sl sb sr era edec j j1). Qed.
+(* C09_body_<Planet> (in C09_b_<Planet>.v)  [ideal, generated code, callees abstracted; PARTIAL CORRECTNESS:
+   conditional on the five callees returning values of the stated shape at the arguments the body passes].
+   Hypotheses, each ONLY at the argument really used: <Planet>.geometric_heliocentric_position(., tofk5=False) at
+   the caller's epoch j = (lA,bA,rA) and at j1 = (l,b,r); Earth.geometric_heliocentric_position(j) = (l0,b0,r0);
+   Epoch.__isub__(epoch j, tau) = epoch j1 for exactly tau = 0.0057755183*|planet(j) - Earth(j)| (C09_geo.tau_of);
+   nutation_longitude(j1) = nut1, true_obliquity(j1) = obl1, Sun.apparent_geocentric_position(j1) = (sl1,sb1,sr1).
+   Side conditions on those OUTPUTS: |T(j1)| <= 40 centuries, |beta| <= 25 deg, |B(j1)| <= 25 deg (so cos beta <> 0,
+   tan B finite, Angle(0,0,s) has |s| < 60).  Satisfiability of the callee hypotheses is not proved in Coq (the
+   VSOP87 series cannot be evaluated symbolically); the shapes are those observed bit-exactly in the correspondence.
+   ecliptical2equatorial is NOT abstracted (closed form of C05) and JDE2000 = 2451545 is proved.
+   Conclusion: the body returns (RAG, DECG, ELONG) of C09_body: with (x,y,z) = planet(j1) - Earth(j),
+   lamG = atan2(y,x), betG = atan2(z, sqrt(x^2+y^2)); LAMG/BETG = these plus aberration (k = 20.49552, e and pi
+   polynomials at T(j1)), FK5 and nutation(j1) terms, each sum reduced by Angle's red360; RAG/DECG =
+   ecliptical2equatorial(LAMG, BETG, obl1); ELONG = acos(cos BETG cos(LAMG - sl1)) with the SUN TAKEN AT THE
+   SHIFTED EPOCH j1 (known finding elongation-sun-at-light-time-epoch, here as a theorem). *)
 
 (* [generated closed forms -> spec] lambda, beta of the body are the direction of planet(j1) - Earth(j) *)
 Theorem C09_body_direction l b r l0 b0 r0 : X2 l b r l0 b0 r0 <> 0 \/ Y2 l b r l0 b0 r0 <> 0 ->
@@ -216,44 +103,90 @@ Theorem C09_body_elongation l b r l0 b0 r0 j1 nutv slv :
   cos (BETG l b r l0 b0 r0 j1 * (PI / 180)) * cos (LAMG l b r l0 b0 r0 j1 nutv * (PI / 180) - slv * (PI / 180)).
 Proof. exact (body_elongation l b r l0 b0 r0 j1 nutv slv). Qed.
 
+(* [generated closed forms -> spec] what the body hands to ecliptical2equatorial is, in degrees and up to whole
+   turns, the geometric direction plus exactly the correction terms bounded by C09_body_corrections *)
+Theorem C09_body_LAMG_BETG l b r l0 b0 r0 j1 nutv :
+  (exists k : Z, LAMG l b r l0 b0 r0 j1 nutv =
+     lamG l b r l0 b0 r0 * (180 / PI) + (dl1G l b r l0 b0 r0 j1 + (Rlit (-9033) (-5) + dl2aG l b r l0 b0 r0 j1)) / 3600 + nutv + 360 * IZR k) /\
+  (exists k : Z, BETG l b r l0 b0 r0 j1 =
+     betG l b r l0 b0 r0 * (180 / PI) + (db1G l b r l0 b0 r0 j1 + db2G l b r l0 b0 r0 j1) / 3600 + 360 * IZR k).
+Proof. exact (body_LAMG_BETG l b r l0 b0 r0 j1 nutv). Qed.
+
+(* [generated closed forms -> spec] the returned RA/Dec are the rotation about the x axis by the obliquity of the
+   unit vector (LAMG, BETG); RA in [0,360), Dec in [-90,90] *)
+Theorem C09_body_radec l b r l0 b0 r0 j1 nutv oblv : -90 < BETG l b r l0 b0 r0 j1 < 90 ->
+  uvec (d2r (RAG l b r l0 b0 r0 j1 nutv oblv)) (d2r (DECG l b r l0 b0 r0 j1 nutv oblv)) =
+  Rx (d2r oblv) (uvec (d2r (LAMG l b r l0 b0 r0 j1 nutv)) (d2r (BETG l b r l0 b0 r0 j1))) /\
+  0 <= RAG l b r l0 b0 r0 j1 nutv oblv < 360 /\ -90 <= DECG l b r l0 b0 r0 j1 nutv oblv <= 90.
+Proof. exact (body_radec l b r l0 b0 r0 j1 nutv oblv). Qed.
+
 (* [ideal, generated code] Minor.geocentric_position, elliptic regime e < 0.98: kepler_equation path,
    r = a(1 - e cos E), two passes (t - T, then t - T - tau with tau = 0.0057755183*|body + Sun|),
-   ra/dec/elongation = C09_mbody.raM/decM/psiM *)
-Theorem C09_minor_geo_elliptic (aa bb cc am bm cm q e inc om w tp n a : R) (kE kv : R -> R -> R) :
-  (forall e0 m, f_kepler_equation Rops (VFloat e0) (ang m) = VTuple [ang (kE e0 m); ang (kv e0 m)]) ->
-  (forall e0 m, -360 < kE e0 m < 360) ->
-  forall j sxj syj szj : R,
+   ra/dec/elongation = C09_mbody.raM/decM/psiM.  kepler_equation is assumed to return (E, v), |E| < 360,
+   ONLY at the two mean anomalies the body passes (mA1, mA2); these four hypotheses are satisfiable by the
+   model for every 0 <= e < 1: C09_kepler_sat_geo *)
+Theorem C09_minor_geo_elliptic (aa bb cc am bm cm q e inc om w tp n a : R) (kE kv : R -> R -> R) (j sxj syj szj : R) :
   Sun_rectangular_coordinates_j2000 Rops (C09_geo.ep j) = VTuple [VFloat sxj; VFloat syj; VFloat szj] ->
   e < Rlit 98 (-2) ->
+  f_kepler_equation Rops (VFloat e) (ang (mA1 tp n j)) = VTuple [ang (kE e (mA1 tp n j)); ang (kv e (mA1 tp n j))] ->
+  -360 < kE e (mA1 tp n j) < 360 ->
+  f_kepler_equation Rops (VFloat e) (ang (mA2 aa bb cc am bm cm e w tp n a kE kv j sxj syj szj)) =
+    VTuple [ang (kE e (mA2 aa bb cc am bm cm e w tp n a kE kv j sxj syj szj)); ang (kv e (mA2 aa bb cc am bm cm e w tp n a kE kv j sxj syj szj))] ->
+  -360 < kE e (mA2 aa bb cc am bm cm e w tp n a kE kv j sxj syj szj) < 360 ->
   denM aa bb cc am bm cm w sxj syj szj (j - tp) (vfE e n kv) (rfE e n a kE) <> 0 ->
   Minor_geocentric_position Rops (mobj aa bb cc am bm cm q e inc om w tp n a) (C09_geo.ep j) =
   VTuple [ang (raM aa bb cc am bm cm w sxj syj szj (j - tp) (vfE e n kv) (rfE e n a kE));
           ang (decM aa bb cc am bm cm w sxj syj szj (j - tp) (vfE e n kv) (rfE e n a kE));
           ang (psiM aa bb cc am bm cm w sxj syj szj (j - tp) (vfE e n kv) (rfE e n a kE))].
-Proof. exact (minor_geo_elliptic aa bb cc am bm cm q e inc om w tp n a kE kv). Qed.
+Proof. exact (minor_geo_elliptic aa bb cc am bm cm q e inc om w tp n a kE kv j sxj syj szj). Qed.
 
-(* [ideal, generated code] near-parabolic regime 0.98 <= e, |e - 1| >= tol: _near_parabolic path *)
-Theorem C09_minor_geo_near_parabolic (aa bb cc am bm cm q e inc om w tp n a : R) (npv npr : R -> R) :
-  (forall t, Minor__near_parabolic Rops (mobj aa bb cc am bm cm q e inc om w tp n a) (VFloat t) = VTuple [ang (npv t); VFloat (npr t)]) ->
-  forall j sxj syj szj : R,
+(* [ideal, generated code] non-vacuity of the kepler_equation hypotheses above: for every 0 <= e < 1 the model's
+   kepler_equation (characterised in C11, copied as C09_K_kepler) returns such values at both arguments *)
+Theorem C09_kepler_sat_geo aa bb cc am bm cm e w tp n a j sxj syj szj : 0 <= e < 1 ->
+  exists kE kv : R -> R -> R,
+    let m1 := mA1 tp n j in let m2 := mA2 aa bb cc am bm cm e w tp n a kE kv j sxj syj szj in
+    f_kepler_equation Rops (VFloat e) (ang m1) = VTuple [ang (kE e m1); ang (kv e m1)] /\ -360 < kE e m1 < 360 /\
+    f_kepler_equation Rops (VFloat e) (ang m2) = VTuple [ang (kE e m2); ang (kv e m2)] /\ -360 < kE e m2 < 360.
+Proof. exact (kepler_sat_geo aa bb cc am bm cm e w tp n a j sxj syj szj). Qed.
+
+(* [ideal, generated code; PARTIAL CORRECTNESS] near-parabolic regime 0.98 <= e, |e - 1| >= tol: IF the two calls
+   of _near_parabolic the body makes (at t - T and t - T - tau) return (v, r), THEN ... .  The model raises
+   ValueError('No convergence') for 0.98 <= e < ~0.9975 far from perihelion (known finding), so the two
+   hypotheses are not always satisfiable; C09_near_parabolic_witness shows the shape at t = 0. *)
+Theorem C09_minor_geo_near_parabolic (aa bb cc am bm cm q e inc om w tp n a j sxj syj szj : R) :
   Sun_rectangular_coordinates_j2000 Rops (C09_geo.ep j) = VTuple [VFloat sxj; VFloat syj; VFloat szj] ->
+  forall npv npr : R -> R,
   Rlit 98 (-2) <= e -> C09_A_defs.tol0 <= Rabs (e - 1) ->
+  Minor__near_parabolic Rops (mobj aa bb cc am bm cm q e inc om w tp n a) (VFloat (j - tp)) = VTuple [ang (npv (j - tp)); VFloat (npr (j - tp))] ->
+  Minor__near_parabolic Rops (mobj aa bb cc am bm cm q e inc om w tp n a) (VFloat (tN2 aa bb cc am bm cm w tp j sxj syj szj npv npr)) =
+    VTuple [ang (npv (tN2 aa bb cc am bm cm w tp j sxj syj szj npv npr)); VFloat (npr (tN2 aa bb cc am bm cm w tp j sxj syj szj npv npr))] ->
   denM aa bb cc am bm cm w sxj syj szj (j - tp) npv npr <> 0 ->
   Minor_geocentric_position Rops (mobj aa bb cc am bm cm q e inc om w tp n a) (C09_geo.ep j) =
   VTuple [ang (raM aa bb cc am bm cm w sxj syj szj (j - tp) npv npr);
           ang (decM aa bb cc am bm cm w sxj syj szj (j - tp) npv npr);
           ang (psiM aa bb cc am bm cm w sxj syj szj (j - tp) npv npr)].
-Proof. exact (minor_geo_near_parabolic aa bb cc am bm cm q e inc om w tp n a npv npr). Qed.
+Proof. exact (minor_geo_near_parabolic aa bb cc am bm cm q e inc om w tp n a j sxj syj szj). Qed.
 
-(* [ideal, generated code] Minor.heliocentric_ecliptical_position *)
-Theorem C09_minor_helio (aa bb cc am bm cm q e inc om w tp n a : R) (kE kv : R -> R -> R) :
-  (forall e0 m, f_kepler_equation Rops (VFloat e0) (ang m) = VTuple [ang (kE e0 m); ang (kv e0 m)]) ->
-  (forall e0 m, -360 < kE e0 m < 360) ->
-  forall j : R,
+(* [ideal, generated code] shape witness: at perihelion the generated _near_parabolic returns (Angle(0), q) *)
+Theorem C09_near_parabolic_witness (aa bb cc am bm cm q e inc om w tp n a : R) : 0 < q -> 0 <= e ->
+  Minor__near_parabolic Rops (mobj aa bb cc am bm cm q e inc om w tp n a) (VFloat 0) = VTuple [ang (red360 (Rlit 0 (-1))); VFloat q].
+Proof. exact (near_parabolic_at_perihelion aa bb cc am bm cm q e inc om w tp n a). Qed.
+
+(* [ideal, generated code] Minor.heliocentric_ecliptical_position; kepler_equation assumed to return only at the
+   mean anomaly passed (mA1); satisfiable for 0 <= e < 1: C09_kepler_sat_helio *)
+Theorem C09_minor_helio (aa bb cc am bm cm q e inc om w tp n a : R) (kE kv : R -> R -> R) (j : R) :
+  f_kepler_equation Rops (VFloat e) (ang (mA1 tp n j)) = VTuple [ang (kE e (mA1 tp n j)); ang (kv e (mA1 tp n j))] ->
+  -360 < kE e (mA1 tp n j) < 360 ->
   Minor_heliocentric_ecliptical_position Rops (mobj aa bb cc am bm cm q e inc om w tp n a) (C09_geo.ep j) =
   VTuple [ang (red360 (lam_of (ecl_x e inc om w n a kE kv (j - tp)) (ecl_y e inc om w n a kE kv (j - tp)) * (180 / PI)));
           ang (red360 (bet_of (ecl_x e inc om w n a kE kv (j - tp)) (ecl_y e inc om w n a kE kv (j - tp)) (ecl_z e inc w n a kE kv (j - tp)) * (180 / PI)))].
-Proof. exact (minor_helio aa bb cc am bm cm q e inc om w tp n a kE kv). Qed.
+Proof. exact (minor_helio aa bb cc am bm cm q e inc om w tp n a kE kv j). Qed.
+
+Theorem C09_kepler_sat_helio e n tp j : 0 <= e < 1 ->
+  exists kE kv : R -> R -> R,
+    f_kepler_equation Rops (VFloat e) (ang (mA1 tp n j)) = VTuple [ang (kE e (mA1 tp n j)); ang (kv e (mA1 tp n j))]
+    /\ -360 < kE e (mA1 tp n j) < 360.
+Proof. exact (kepler_sat_helio e n tp j). Qed.
 
 (* [generated closed forms -> spec] the elongation of a minor body: Cauchy-Schwarz keeps the acos argument in
    [-1,1]; psi in [0,180], cos psi = <g, s>/(|g||s|) *)
@@ -308,9 +241,14 @@ Redirect "C09_minor_gauss.assumptions" Print Assumptions C09_minor_gauss.
 Redirect "C09_body_direction.assumptions" Print Assumptions C09_body_direction.
 Redirect "C09_body_corrections.assumptions" Print Assumptions C09_body_corrections.
 Redirect "C09_body_elongation.assumptions" Print Assumptions C09_body_elongation.
+Redirect "C09_body_LAMG_BETG.assumptions" Print Assumptions C09_body_LAMG_BETG.
+Redirect "C09_body_radec.assumptions" Print Assumptions C09_body_radec.
 Redirect "C09_minor_geo_elliptic.assumptions" Print Assumptions C09_minor_geo_elliptic.
+Redirect "C09_kepler_sat_geo.assumptions" Print Assumptions C09_kepler_sat_geo.
 Redirect "C09_minor_geo_near_parabolic.assumptions" Print Assumptions C09_minor_geo_near_parabolic.
+Redirect "C09_near_parabolic_witness.assumptions" Print Assumptions C09_near_parabolic_witness.
 Redirect "C09_minor_helio.assumptions" Print Assumptions C09_minor_helio.
+Redirect "C09_kepler_sat_helio.assumptions" Print Assumptions C09_kepler_sat_helio.
 Redirect "C09_minor_elongation.assumptions" Print Assumptions C09_minor_elongation.
 Redirect "C09_minor_direction.assumptions" Print Assumptions C09_minor_direction.
 Redirect "C09_pluto_geo.assumptions" Print Assumptions C09_pluto_geo.
